@@ -58,6 +58,17 @@ def classify_for(loop, f, idx=None):
         used = {u(n) for a in it.args for n in ast.walk(a) if isinstance(n, (ast.Name, ast.Attribute))}
         # range() is evaluated once: the bound cannot grow during the loop
         return "CAP", "for over range(%s), evaluated once" % ", ".join(u(a) for a in it.args)
+    if cn in ("count", "itertools.count"):
+        # an endless counter: the loop needs an exit `if <target> >= bound: break / return` at the top level of its body (bound not assigned in the loop)
+        if isinstance(loop.target, ast.Name):
+            tv = loop.target.id
+            for st in loop.body:
+                if isinstance(st, ast.If) and _always_exits(st.body) and not st.orelse:
+                    for dj in disjuncts(st.test):
+                        b = _exit_compare(dj, tv)
+                        if b is not None and not b.startswith("==") and b not in assigned:
+                            return "CAP", "for over itertools.count with the exit `%s` (bound %s is not assigned in the loop)" % (u(dj), b)
+        return None, "endless iterator `%s` without a top-level exit on the loop variable" % u(it)
     if cn in ("enumerate", "zip", "reversed", "sorted", "list", "tuple"):
         return "STRUCT", "for over %s(...)" % cn
     if isinstance(it, (ast.List, ast.Tuple)):
